@@ -7,6 +7,12 @@
 #define C01_STORE_H
 #include <pthread.h>
 #include <pmem.h>
+#ifdef ST_PRE_HOOK   /* -DST_PRE_HOOK=fn: the allocator is a preemption point of the sequential nested-context emulation */
+void ST_PRE_HOOK(void);
+#define ST_PRE() ST_PRE_HOOK();
+#else
+#define ST_PRE()
+#endif
 #ifdef ST_ONLY_SPIN
 /* lean variant for the atomic spinlock units (under --mm tso every static byte costs encoding steps) */
 static struct { volatile pint spin; } st_spin;                 /* pspinlock-c11.c / -sync.c */
@@ -16,6 +22,7 @@ static int st_nalloc, st_nfree;
 #define ST_SLOT(o) if (!o##_u && n == sizeof o) { o##_u = 1; return &o; }
 #define ST_GEN(o)  if (!o##_u) { o##_u = 1; return o; }
 ppointer p_malloc0(psize n) {
+  ST_PRE()
   if (n == 0) return NULL;
   st_nalloc++;
   ST_SLOT(st_spin)
@@ -37,6 +44,7 @@ static int st_nalloc, st_nfree;
 #define ST_SLOT(o) if (!o##_u && n == sizeof o) { o##_u = 1; return &o; }
 #define ST_GEN(o)  if (!o##_u) { o##_u = 1; return o; }
 ppointer p_malloc0(psize n) {
+  ST_PRE()
   if (n == 0) return NULL;
   st_nalloc++;
   ST_SLOT(st_rw) ST_SLOT(st_spin) ST_SLOT(st_simspin) ST_SLOT(st_mtx0) ST_SLOT(st_mtx1) ST_SLOT(st_cv0) ST_SLOT(st_cv1) ST_SLOT(st_prw)
